@@ -1,6 +1,8 @@
-"""Prototype (python) of the IR -> bytecode translation validator, used to measure completeness of
-the rules before they are written in Gallina (Engines/TV.v).  Not part of any check."""
-import sys
+"""Certificate inference for the IR -> bytecode translation validator (Engines/TV.v, theorem
+C02_validated_translation).  UNTRUSTED: this module co-executes the dumped IR and bytecode
+symbolically, guesses the facts that hold at every loop head and if-join (iterated weakening) and
+prints them as a certificate; the extracted Coq checker [tv_check] re-checks everything, so a bug
+here can only make a certificate be rejected, never make a wrong translation be accepted."""
 
 
 class Reject(Exception):
@@ -161,6 +163,19 @@ def single_atom(p):
         if c == 1 and len(m) == 1:
             return m[0]
     return None
+
+
+def atom_plus_const(p):
+    """(a, c) if p = a + c for an atom a and a constant c"""
+    a, c = None, 0
+    for m, k in p.items():
+        if m == ():
+            c = k
+        elif len(m) == 1 and k == 1 and a is None:
+            a = m[0]
+        else:
+            return None
+    return (a, c) if a is not None else None
 
 
 def nonzero(st, p):
@@ -411,24 +426,25 @@ class TV:
             for k, p in st.Cb.items():
                 if k in wc or k in new.D:
                     continue
-                a = single_atom(p)
-                if a is not None:
-                    rev.setdefault(a, ("c", k))
+                ac = atom_plus_const(p)
+                if ac is not None:
+                    # cell k holds (old atom a) + c: the old atom is (cell k) - c
+                    rev.setdefault(ac[0], padd(patom(("c", k)), pconst(-ac[1], M), M))
                 by_val.setdefault(key(p), k)
 
         def keep_atom(a):
+            if a[0] == "c" and a[1] not in st.Cb and a[1] not in new.D and not allc and a[1] not in wc:
+                return patom(a)
             if a in rev:
                 return rev[a]
-            if a[0] == "c" and a[1] not in st.Cb and a[1] not in new.D and not allc and a[1] not in wc:
-                return a
             if a[0] == "t" and st.T.get(a[1]) == patom(a) and a[1] not in wt:
-                return a
+                return patom(a)
             return None
 
         def rename(p):
             ren = {a: keep_atom(a) for a in atoms(p)}
             if all(v is not None for v in ren.values()):
-                return psubst(p, lambda a: patom(ren[a]), M)
+                return psubst(p, lambda a: ren[a], M)
             return None
         if not allc:
             for k, p in st.Cb.items():
